@@ -1,0 +1,154 @@
+//go:build verif
+
+// Verification hooks (C02, the glue between the SOCKS front end and the obfs4 client): `keys.run`
+// of the scripted driver in verif_hooks.go.  It runs the real clientHandler with the REAL obfs4
+// ClientFactory for <n> SOCKS requests in a row (arguments cert=<cert>;iat-mode=0, target
+// <ip:port>), through a dial function (proxy scheme verifconn) that hands out in-memory
+// connections which record what is written to them and end the connection (EOF, or a reset
+// *net.OpError) as soon as the client reads, i.e. after its first flight.  It reports, per SOCKS
+// request, the first 32 bytes (the Elligator representative X' of the ephemeral key) written on
+// every outgoing connection that was made for it.  Nothing here runs unless the driver is
+// active; no existing behaviour is changed.
+//
+//	keys.run <n> <eof|reset> <cert> <ip:port>  →  ok <x'hex>[,<x'hex>…] …   (one word per request,
+//	                                               one entry per outgoing connection; `-` = none)
+package main
+
+import (
+	"encoding/hex"
+	"net"
+	"os"
+	"strconv"
+	"strings"
+	"sync"
+	"syscall"
+	"time"
+
+	"gitlab.com/yawning/obfs4.git/common/log"
+	"gitlab.com/yawning/obfs4.git/transports"
+)
+
+// verifRecConn accepts and records writes; every Read fails with endErr.
+type verifRecConn struct {
+	mu     sync.Mutex
+	buf    []byte
+	endErr error
+	laddr  net.Addr
+	raddr  net.Addr
+}
+
+func (c *verifRecConn) Read([]byte) (int, error) { return 0, c.endErr }
+func (c *verifRecConn) Write(p []byte) (int, error) {
+	c.mu.Lock()
+	c.buf = append(c.buf, p...)
+	c.mu.Unlock()
+	return len(p), nil
+}
+func (c *verifRecConn) Close() error                     { return nil }
+func (c *verifRecConn) LocalAddr() net.Addr              { return c.laddr }
+func (c *verifRecConn) RemoteAddr() net.Addr             { return c.raddr }
+func (c *verifRecConn) SetDeadline(time.Time) error      { return nil }
+func (c *verifRecConn) SetReadDeadline(time.Time) error  { return nil }
+func (c *verifRecConn) SetWriteDeadline(time.Time) error { return nil }
+
+func verifKeysRun(w []string) string {
+	if len(w) != 5 {
+		return "bad-op"
+	}
+	n, err := strconv.Atoi(w[1])
+	if err != nil || n < 1 || n > 64 {
+		return "bad-op"
+	}
+	raddr, err := net.ResolveTCPAddr("tcp", w[4])
+	if err != nil {
+		return "bad-op"
+	}
+	laddr := &net.TCPAddr{IP: net.IPv4(127, 0, 0, 1), Port: 40001}
+	var endErr error
+	switch w[2] {
+	case "eof":
+		endErr = verifEOF()
+	case "reset":
+		endErr = &net.OpError{Op: "read", Net: "tcp", Source: laddr, Addr: raddr, Err: os.NewSyscallError("read", syscall.ECONNRESET)}
+	default:
+		return "bad-op"
+	}
+	if _, err := verifRealStateDir(); err != nil {
+		return "error " + strings.ReplaceAll(err.Error(), " ", "_")
+	}
+	cf, err := transports.Get("obfs4").ClientFactory(verifRealDir)
+	if err != nil {
+		return "error " + strings.ReplaceAll(err.Error(), " ", "_")
+	}
+	socks, err := verifSocksAuthRequest(w[4], "cert="+w[3]+";iat-mode=0")
+	if err != nil {
+		return "bad-op"
+	}
+	_ = log.Init(false, "", false)
+
+	m := &termMonitor{sigChan: make(chan os.Signal), handlerChan: make(chan int)}
+	termMon = m
+	stop := make(chan struct{})
+	go func() {
+		for {
+			select {
+			case <-m.handlerChan:
+			case <-stop:
+				return
+			}
+		}
+	}()
+	defer close(stop)
+
+	var mu sync.Mutex
+	var conns []*verifRecConn
+	verifProxyConn = func() net.Conn {
+		c := &verifRecConn{endErr: endErr, laddr: laddr, raddr: raddr}
+		mu.Lock()
+		conns = append(conns, c)
+		mu.Unlock()
+		return c
+	}
+	defer func() { verifProxyConn = nil }()
+	proxyURI := verifProxyURL()
+
+	var words []string
+	for i := 0; i < n; i++ {
+		mu.Lock()
+		conns = nil
+		mu.Unlock()
+		conn := verifNewLogConn(verifStrAddr{"127.0.0.1:9050"}, verifStrAddr{"127.0.0.1:40000"}, verifEOF(), socks...)
+		done := make(chan struct{})
+		go func() {
+			defer close(done)
+			clientHandler(cf, conn, proxyURI)
+		}()
+		select {
+		case <-done:
+		case <-time.After(20 * time.Second):
+			return "stuck"
+		}
+		mu.Lock()
+		var xs []string
+		for _, c := range conns {
+			c.mu.Lock()
+			b := c.buf
+			if len(b) > 32 {
+				b = b[:32]
+			}
+			if len(b) == 0 {
+				xs = append(xs, "empty")
+			} else {
+				xs = append(xs, hex.EncodeToString(b))
+			}
+			c.mu.Unlock()
+		}
+		mu.Unlock()
+		if len(xs) == 0 {
+			words = append(words, "-")
+		} else {
+			words = append(words, strings.Join(xs, ","))
+		}
+	}
+	return "ok " + strings.Join(words, " ")
+}
